@@ -73,7 +73,7 @@ func run(c *common.Ctx) error {
 	md.RenderString("", &md.HTMLCodec{})
 	s := &common.Std{
 		Rule: "whole-formatter laws (the repo's own fuzz predicates: render preserved, idempotent, reflow preserves render modulo whitespace, fits width, " +
-			"unchanged under fmt; same exclusions) over spec.json, the supplemental cases, the checked-in fuzz corpus, grammar-generated and mutated " +
+			"unchanged under fmt; same exclusions) over spec.json, link destinations over {a ( )} in three forms, the supplemental cases, the checked-in fuzz corpus, grammar-generated and mutated " +
 			"documents × widths {0,20,51,80,random}; model ops: FmtCodec.Do on a single text node (paragraph, ATX heading), code block, code span and " +
 			"reflowed single-text paragraph, diffed against the Lean model of fmt.go's escaping/fence/reflow decisions; non-trivial = formatter ran " +
 			"without reporting an unsupported feature; distinct by op line",
@@ -128,6 +128,54 @@ func gen(c *common.Ctx, emit func(...string)) {
 			w = common.Pick(c.Rand, []int{1, 5, 10, 20, 30, 51, 80, c.Rand.Range(1, 100)})
 		}
 		emit("fmt", strconv.Itoa(w), common.Hex(doc))
+	}
+	// link destinations with parentheses: balanced, unbalanced and balanced by
+	// count only (")(" ), in the angle-bracket, the escaped and the bare form
+	var dests []string
+	var drec func(prefix string, k int)
+	drec = func(prefix string, k int) {
+		if strings.ContainsAny(prefix, "()") {
+			dests = append(dests, prefix)
+		}
+		if k == 0 {
+			return
+		}
+		for _, a := range []string{"a", "(", ")"} {
+			drec(prefix+a, k-1)
+		}
+	}
+	drec("", c.Scale(5, 7))
+	for i, d := range dests {
+		esc := strings.NewReplacer("(", "\\(", ")", "\\)").Replace(d)
+		for k, form := range []string{"<" + d + ">", esc, d} {
+			doc := "[x](" + form + ")"
+			switch (i + k) % 4 {
+			case 1:
+				doc = "![x](" + form + " \"t\")"
+			case 2:
+				doc = "a [x](" + form + " (t)) b"
+			}
+			emit("fmt", strconv.Itoa([]int{0, 40}[(i+k)%2]), common.Hex(doc))
+		}
+	}
+	// autolinks: URI schemes (mailto: among them, which the formatter also
+	// meets as the destination of an e-mail autolink) with text that contains
+	// character-reference lookalikes and characters the formatter escapes
+	autoAtoms := []string{"a", "x@y.z", "&amp;", "&amp;amp;", "&#32;", "&lt;", "&gt;", "&", ";", "?b=1", "\\", "*", "_", "`", "[", "]", "(", ")", "%20", "é", "\""}
+	for i := c.Scale(1500, 20000); i > 0; i-- {
+		var sb strings.Builder
+		for k := c.Rand.Range(0, 4); k > 0; k-- {
+			sb.WriteString(common.Pick(c.Rand, autoAtoms))
+		}
+		scheme := common.Pick(c.Rand, []string{"mailto:", "mailto:", "MAILTO:", "http://", "a+b.c-d:", "xx:", ""})
+		doc := "<" + scheme + sb.String() + ">"
+		switch c.Rand.Intn(4) {
+		case 0:
+			doc = "see " + doc + " and <b@c.d>"
+		case 1:
+			doc = "- " + doc + "\n"
+		}
+		emit("fmt", strconv.Itoa(common.Pick(c.Rand, []int{0, 0, 20, 60})), common.Hex(doc))
 	}
 	// model ops
 	small := []string{"a", " ", "*", "_", "-", "#", "1", ".", "&", ";", "<", ">", "~", "+", "`", "\\", "[", ")"}
